@@ -49,6 +49,11 @@ let dispatch f args = match f, args with
        show_outcome show_bool (t_verify_message dsha h160 (curve_of p a b gx gy n) key (arg_bytes t)
                                  (msg_magic (arg_bytes nm)) (opt_bytes m) (opt_z mh))
      | _ -> failwith "verify args")
+  | "utf8", [u] -> (match utf8_encode (arg_ustr u) with Some b -> show_bytes b | None -> "!E_VALUE")   (* UnicodeEncodeError *)
+  | "hashu", [nm; u] ->
+    (match utf8_encode (arg_ustr nm), utf8_encode (arg_ustr u) with
+     | Some a, Some b -> show_outcome show_z (t_hash_for_signing dsha a b)
+     | _, _ -> "!E_VALUE")
   | "armour", [nt; m; a; s] -> show_ustr (armour (arg_ustr nt) (arg_ustr m) (arg_ustr a) (arg_ustr s))
   | "parse_signed", [t] -> show_outcome show_msa (parse_signed_message (arg_ustr t))
   | "parse_sections", [t] -> show_outcome (show_pair show_ustr show_ustr) (parse_sections (arg_ustr t))
